@@ -52,7 +52,7 @@ def task_result(prog, sd, td) -> str:
         return failure_status(sd)
     if k in ("transient", "transientNoCtx") and n + 1 > RETRY_BUDGET - 1:
         return failure_status(sd)      # retries exhausted
-    if k in ("jump", "jump2") and n > max_jumps(prog):
+    if k in ("jump", "jump2", "jumpafter") and n > max_jumps(prog):
         return "TERMINAL"              # jump budget exhausted (JumpToStage fails the source stage)
     return "SUCCEEDED"
 
